@@ -1,10 +1,9 @@
-// Repro for the C14 findings of unit `decrypt` (hostile /Length, /CF Length, /UE) -- append to pdf/src/crypt.rs of a
-// scratch copy of /repo:
-//   cat findings/hostile_key_length_repro.rs >> <scratch>/pdf/src/crypt.rs
-//   cd <scratch> && CARGO_TARGET_DIR=/verif/.cache/native-target cargo test --offline -p pdf --lib verif_hostile -- --nocapture
-// Every test states the C14 expectation "a value or an error, no panic"; on the pinned tree each one panics.
+// Repro for finding `short_ue` of unit `decrypt` (R5/R6 /UE not 32 bytes: Decoder with a short key buffer) -- append to pdf/src/crypt.rs of a scratch copy of /repo:
+//   cat findings/short_ue_repro.rs >> <scratch>/pdf/src/crypt.rs
+//   cd <scratch> && CARGO_TARGET_DIR=/tmp/decrypt_target cargo test --offline -p pdf --lib verif_short_ue -- --nocapture
+// C14 expectation: "a value or an error, no panic". Panics on the pinned tree, passes with findings/short_ue_fix.diff.
 #[cfg(test)]
-mod verif_hostile_key_length {
+mod verif_short_ue {
     use super::*;
     use sha2::{Digest, Sha256};
 
@@ -28,19 +27,6 @@ mod verif_hostile_key_length {
         assert!(r.is_ok(), "{}: panicked instead of returning a value or an error", what);
     }
 
-    /// << /V 2 /R 3 /Length 0 >> : key_size = 0, check_password_rc4(.., &key[..0]) -> Rc4::new(&[]) -> assert!
-    #[test]
-    fn verif_hostile_length_zero() {
-        no_panic("/V 2 /Length 0", || Decoder::from_password(&dict(2, 3, 0, None), b"id", b"").map(|_| ()));
-        no_panic("/V 4 /CF Length 0", || Decoder::from_password(&dict(4, 4, 128, Some((CryptMethod::V2, Some(0)))), b"id", b"").map(|_| ()));
-    }
-
-    /// << /V 4 /CF << /StdCF << /CFM /AESV2 /Length 536870912 >> >> >> : `8 * n` overflows u32
-    #[test]
-    fn verif_hostile_cf_length_overflow() {
-        no_panic("/CF Length 2^29", || Decoder::from_password(&dict(4, 4, 128, Some((CryptMethod::AESV2, Some(1 << 29)))), b"id", b"").map(|_| ()));
-    }
-
     /// R5 dictionary whose /UE is the empty string: the unwrapped "file key" is empty, key_size is 32;
     /// open succeeds and the first decrypt() slices `self.key[..16]`
     #[test]
@@ -52,11 +38,16 @@ mod verif_hostile_key_length {
         let mut u = h.finalize().to_vec(); u.extend_from_slice(&vsalt); u.extend_from_slice(&ksalt);
         let mut d = dict(4, 5, 128, Some((CryptMethod::AESV2, None)));
         d.u = s(&u); d.o = s(&[0u8; 48]); d.ue = Some(s(b"")); d.oe = Some(s(b""));
-        let decoder = Decoder::from_password(&d, b"id", pass).expect("user password matches");
-        println!("key.len() = {}, key_size = {}", decoder.key.len(), decoder.key_size);
-        no_panic("decrypt with empty /UE", move || {
-            let mut data = vec![0u8; 32];
-            decoder.decrypt(PlainRef { id: 1, gen: 0 }, &mut data).map(|_| ()).ok();
-        });
+        // C14: either the dictionary is rejected, or the decoder it yields never panics
+        match Decoder::from_password(&d, b"id", pass) {
+            Err(e) => println!("rejected: {:?}", e),
+            Ok(decoder) => {
+                println!("accepted: key.len() = {}, key_size = {}", decoder.key.len(), decoder.key_size);
+                no_panic("decrypt with empty /UE", move || {
+                    let mut data = vec![0u8; 32];
+                    decoder.decrypt(PlainRef { id: 1, gen: 0 }, &mut data).map(|_| ()).ok();
+                });
+            }
+        }
     }
 }
